@@ -111,10 +111,11 @@ def make_case(rng, max_j, max_s, max_n, full, mev, small):
     return case
 
 
-def make_context(case, tmp, **extra):
+def make_context(case, tmp, alternatives=None, **extra):
     from biogeme.sampling_of_alternatives import SamplingContext
     return SamplingContext(the_partition=case['partition'], sample_sizes=case['sizes'],
-                           individuals=case['ind'].copy(), choice_column='choice', alternatives=case['alts'].copy(),
+                           individuals=case['ind'].copy(), choice_column='choice',
+                           alternatives=case['alts'].copy() if alternatives is None else alternatives,
                            id_column='id', biogeme_file_name=os.path.join(tmp, 'c19.dat'),
                            utility_function=case['util'], combined_variables=case['combined'],
                            **case['kw'], **extra)
@@ -337,8 +338,21 @@ def run_full(rng, cases, dims, repeats, model):
                 extra['cnl_nests'] = NestsForCrossNestedLogit(choice_set=ids, tuple_of_nests=tuple(
                     OneNestForCrossNestedLogit(nest_param=Beta(f'mu{q}', mu, 1, None, 1), dict_of_alpha=dict(a), name=f'n{q}')
                     for q, (a, mu) in enumerate(nests_ref)))
+            shared = None
+            if model == 'cnl' and c % 2 == 1:
+                # history: another context was prepared before on the SAME table of alternatives, with other membership
+                # coefficients under the same nest names; the model of the second context is the one compared below
+                shared = case['alts'].copy()
+                other = [{i: 1.0 for i in ids}] + [{ids[0]: 1.0}] * (len(nests_ref) - 1)
+                try:
+                    make_context(case, tmp, alternatives=shared, cnl_nests=NestsForCrossNestedLogit(
+                        choice_set=ids, tuple_of_nests=tuple(
+                            OneNestForCrossNestedLogit(nest_param=Beta(f'mu{q}', mu, 1, None, 1), dict_of_alpha=dict(other[q]), name=f'n{q}')
+                            for q, (a, mu) in enumerate(nests_ref))))
+                except Exception:
+                    shared = None            # the first specification is not the subject: plain case
             try:
-                ctx = make_context(case, tmp, **extra)
+                ctx = make_context(case, tmp, alternatives=shared, **extra)
             except Exception as e:
                 out.append({'case': c, 'context': describe(case), 'bad': [{'clause': 'valid-context-accepted', 'detail': f'{type(e).__name__}: {e}'[:300]}]})
                 continue
@@ -367,6 +381,7 @@ def run_full(rng, cases, dims, repeats, model):
                 if problems:
                     d = describe(case)
                     d['nests'] = [(sorted(a.items()) if isinstance(a, dict) else a, mu) for a, mu in nests_ref] if nests_ref else None
+                    d['history'] = 'a context with other alphas was prepared before on the same table of alternatives' if shared is not None else None
                     out.append({'case': c, 'repeat': rep, 'context': d, 'bad': problems})
                     break
             if len(out) >= 5:
